@@ -226,6 +226,18 @@ def suites(tier, seed):
         for rest in ("Feature: f\n  Scenario: s\n    Given a\n", "", "@t\nFeature: f\n", "Funktionalität: f\n"):
             soups.append({"entry": "feature", "text": first + "\n" + rest, "lang": None})
             soups.append({"entry": "feature", "text": "\n" + first + "\n" + rest, "lang": rnd.choice([None, "de"])})
+    # an Examples keyword without (or with a partial) table, followed by every kind of line; outlines with and without steps
+    follow = [[], ["  Scenario: S", "    Given a"], ["    Examples: again", "      | x |", "      | 1 |"], ["  @t", "  Scenario: S"], ["    junk"],
+              ["  Rule: R", "    Scenario: S", "      Given a"], ["", "  Scenario Outline: P", "    Given <x>", "    Examples:", "      | x |"],
+              ["    # note", "    junk"], ["    Given late"], ['    """', "    doc", '    """'], ["  Background: late"], ["    Examples:"]]
+    for head in (["Feature: F", "  Scenario Outline: O"], ["Feature: F", "  Scenario Outline: O", "    Given a <x>"],
+                 ["Feature: F", "  Background:", "    Given bg", "  Scenario Outline: O"],
+                 ["Feature: F", "  Rule: R", "    Scenario Outline: O"]):
+        for ex in (["    Examples: e"], ["    @x", "    Examples: e"], ["    Examples: e", "      about it"], ["    Examples: e", "      | x |"]):
+            for fo in follow:
+                soups.append({"entry": "feature", "text": "\n".join(head + ex + fo) + "\n", "lang": None})
+                if head[1].startswith("  Scenario Outline") and len(soups) % 3 == 0:
+                    soups.append({"entry": "scenario", "text": "\n".join(head[1:] + ex + fo) + "\n", "lang": None})
     for t in ("", "\n", " ", "@a", " @a", "\n@a", "@a\n@b c", "x", "@a\n\n  @b #c\n"):
         soups.append({"entry": "tags", "text": t, "lang": None})
     muts = []
